@@ -9,6 +9,8 @@ import _ "unsafe"
 //go:linkname trace C.trace
 func trace(x int)
 
+func mark55() { trace(55) }
+
 func helperRecover() int {
 	if e := recover(); e != nil {
 		return 1
@@ -112,6 +114,8 @@ HAND = [
     ('RepanicValue', 'func RepanicValue(a int, c1, c2, p1 bool, n int, s []int) (r int) {\n\tdefer func() {\n\t\tif e := recover(); e != nil {\n\t\t\ttrace(60)\n\t\t\tr = e.(int)\n\t\t}\n\t}()\n\tdefer func() {\n\t\ttrace(61)\n\t\tif c1 {\n\t\t\tpanic(a + 2)\n\t\t}\n\t}()\n\ttrace(62)\n\tpanic(a + 1)\n}\n'),
     ('RepanicTriple', 'func RepanicTriple(a int, c1, c2, p1 bool, n int, s []int) (r int) {\n\tdefer func() {\n\t\te := recover()\n\t\ttrace(63)\n\t\tif v, ok := e.(int); ok {\n\t\t\tr = v\n\t\t}\n\t}()\n\tdefer func() { panic(a + 3) }()\n\tdefer func() {\n\t\tif c2 {\n\t\t\tpanic(a + 2)\n\t\t}\n\t}()\n\tif p1 {\n\t\tpanic(a + 1)\n\t}\n\treturn 5\n}\n'),
     ('RecoverThenPanic', 'func RecoverThenPanic(a int, c1, c2, p1 bool, n int, s []int) (r int) {\n\tdefer func() {\n\t\tif e := recover(); e != nil {\n\t\t\tr = e.(int) * 10\n\t\t}\n\t}()\n\tdefer func() {\n\t\te := recover()\n\t\ttrace(64)\n\t\tif v, ok := e.(int); ok && c1 {\n\t\t\tpanic(v + 100)\n\t\t}\n\t}()\n\tpanic(a)\n}\n'),
+    # loop defers, then a conditional defer of a plain no-argument function, then loop defers
+    ('LoopCondPlainLoop', 'func LoopCondPlainLoop(a int, c1, c2, p1 bool, n int, s []int) (r int) {\n\tfor i := 0; i < n&3; i++ {\n\t\tdefer trace(100 + i)\n\t}\n\tif c1 {\n\t\tdefer mark55()\n\t}\n\tfor i := 0; i < a&3; i++ {\n\t\tdefer trace(200 + i)\n\t}\n\tif p1 {\n\t\tpanic(9)\n\t}\n\treturn a\n}\n'),
     ('RecoverIndirect', 'func RecoverIndirect(a int, c1, c2, p1 bool, n int, s []int) (r int) {\n\tdefer func() {\n\t\ttrace(90 + helperRecover())\n\t}()\n\tif p1 {\n\t\tpanic(91)\n\t}\n\treturn a\n}\n'),
 ]
 
